@@ -23,7 +23,9 @@ from vsym.ob import Ob
 PROPERTY = 'C04'
 
 EXIT_CODES = (0, 1, 2, 127, 255)
-MISBEHAVIOURS = ('none', 'chdir-home', 'chdir-tmp', 'read-only-files', 'environ', 'rm-cwd')
+# 'result-files-exist': [setup] leaves files named stdout / stderr / exit-code in result/ (round 6: C04-r6m1 opened the result files of
+# the action in append mode)
+MISBEHAVIOURS = ('none', 'chdir-home', 'chdir-tmp', 'read-only-files', 'environ', 'rm-cwd', 'result-files-exist')
 
 REAL = (
     'exactly_lib.execution.partial_execution.execution.execute',
@@ -210,6 +212,10 @@ def run(fault_idx: int, kind: int, keep: bool, xsel: int, mis: int) -> Facts:
                     d[f.env_marker] = '1'
                     settings.set_environ(d)
                     settings.environ()[f.env_marker + '2'] = '2'
+            elif misb == 'result-files-exist':
+                (root / 'result' / 'stdout').write_text('LEFTOVER-OUT;')
+                (root / 'result' / 'stderr').write_text('LEFTOVER-ERR;')
+                (root / 'result' / 'exit-code').write_text('99')
             elif misb == 'rm-cwd':
                 sub = root / 'act' / 'gone'
                 sub.mkdir()
